@@ -117,7 +117,7 @@ def gen(rng, tier):
         cases.append(K.rand_script_program(rng, rng.randrange(1, 5), rng.randrange(2, 14), cancellers=True, pauses=False))
     # how a failure is handed to errback must not matter: bare errback() inside an except block, errback(None),
     # errback(Failure) instead of errback(exc)
-    cases += K.with_errback_forms(cases, rng, 0.35 if tier == "quick" else 0.15)
+    cases += K.with_errback_forms(cases, rng, 0.25 if tier == "quick" else 0.12)
     # the exact type of a Deferred must not matter: a sample once more with trivial-subclass instances
     cases += K.with_subclasses(cases, rng, 0.08 if tier == "quick" else 0.04)
     # Deferred debugging (defer.setDebugging(True)) must not change anything observable: a sample once more with it on
@@ -338,7 +338,7 @@ SPEC = Spec(
          "that alphabet + {inner.cancel, inner.errback}; every history with a cancel of length <= 3 (8% of 4, 0.5% of 5; thorough <= 4, 10% of 5, 0.5% of 6) over the "
          "3-level alphabet {outer returns middle, middle returns pending, fire each, cancel each} x 3 (5) cancellers of "
          "the pending Deferred; 500 (10 000) forwarding scenarios (2-5 levels of fired-and-waiting Deferreds, cancel at "
-         "any level, late results); 35% (15%) of the cases containing an errback once more with the failure handed over as bare errback() inside an except block / errback(None) / errback(Failure); 12% (8%) of all these cases once more under defer.setDebugging(True); 1 200 (10 000) random programs of 3-15 operations over the "
+         "any level, late results); 25% (12%) of the cases containing an errback once more with the failure handed over as bare errback() inside an except block / errback(None) / errback(Failure); 12% (8%) of all these cases once more under defer.setDebugging(True); 1 200 (10 000) random programs of 3-15 operations over the "
          "kernel alphabet without pause/unpause on 1-4 Deferreds.  non-trivial = an AlreadyCalledError, a swallowed result, a "
          "canceller call or a CancelledError occurs; distinct by (case, observation)",
     trusted=["hand-written kernel model coq/Lib/DeferredK.v (tied by this correspondence run only)",
